@@ -428,10 +428,69 @@ def c15(tier, seed):
 
 ORACLES = {"c05": lambda c: oracle_c05(tuple(c)), "c05_thr": lambda c: oracle_c05_thresholds(tuple(c)), "c09_string": lambda c: oracle_c09_string(tuple(c)),
            "c09_resolve": lambda c: oracle_c09_resolve((c[0], grammar("quick", 0))), "c06": lambda c: oracle_c06(tuple(c)),
-           "c14": oracle_c14, "c14_rerender": oracle_c14_rerender, "c15": lambda c: oracle_c15(tuple(c))}
+           "c14": oracle_c14, "c14_rerender": oracle_c14_rerender, "c15": lambda c: oracle_c15(tuple(c)),
+           "c14_cli": lambda c: oracle_c14_cli(tuple(c))}
 
 
 def replay(w):
     msg = ORACLES[w["replay"]["oracle"]](w["input"])
     print("replay:", "violated: " + msg if msg else "held")
     return 1 if msg else 0
+
+
+# ------------------------------------------------------------------------------------------------ C14: a CLI run followed by library calls
+_CLI_THEN_LIB = r"""
+import io, json, os, sys, tempfile, contextlib
+sys.path.insert(0, {repo!r}); sys.path.insert(0, {here!r})
+from bounded.common import MetadataGenerator, ModelRegistry, compose_models_flat, generate_code, PydanticModelCodeGenerator
+def lib():
+    gen = MetadataGenerator()                       # default (module-level) string registry, as a library user gets it
+    reg = ModelRegistry()
+    reg.process_meta_data(gen.generate({{"d": "2018-12-31", "n": "12"}}), model_name="Root")
+    reg.merge_models(gen); reg.generate_names()
+    return generate_code(compose_models_flat(reg.models_map), PydanticModelCodeGenerator)
+before = lib()
+d = tempfile.mkdtemp(prefix="j2m_c14_")
+p = os.path.join(d, "in.json"); open(p, "w").write(json.dumps({{"k": 1}}))
+from json_to_models.cli import Cli
+argv = ["-m", "M", p] + {extra!r}
+old = sys.argv; sys.argv = ["json2models"] + argv
+try:
+    with contextlib.redirect_stdout(io.StringIO()):
+        c = Cli(); c.parse_args(argv); c.run()
+finally:
+    sys.argv = old
+    import shutil; shutil.rmtree(d, ignore_errors=True)
+after = lib()
+sys.stdout.write("SAME" if before == after else "DIFF\n--- before\n" + before + "\n--- after\n" + after)
+"""
+
+
+def oracle_c14_cli(extra):
+    repo = os.environ.get("VERIF_REPO", "/repo")
+    code = _CLI_THEN_LIB.format(repo=repo, here=HERE, extra=list(extra))
+    p = subprocess.run([sys.executable, "-c", code], capture_output=True, text=True, env=dict(os.environ, PYTHONPATH=f"{repo}:{HERE}"), timeout=180)
+    if p.returncode != 0:
+        raise RuntimeError("probe process failed: " + p.stderr[-300:])
+    if not p.stdout.startswith("SAME"):
+        return "a library generation with the default string registry gives different text after an in-process CLI run with " + \
+            " ".join(extra) + ": " + p.stdout[:400].replace("\n", " | ")
+    return None
+
+
+@bounded("C14", "cli_run_then_library_call")
+def c14_cli(tier, seed):
+    """the CLI front end is one of the 'earlier generations in the same process': a later library call must not see it"""
+    from .ir_props import run_cases
+    cases = [(), ("--datetime",), ("--disable-str-serializable-types", "int"), ("-f", "attrs"), ("--max-strings-literals", "0")]
+    viol = []
+    ev = 0
+    for extra in cases:
+        ev += 1
+        msg = oracle_c14_cli(extra)
+        if msg:
+            viol.append({"id": "cli-then-library:" + " ".join(extra), "input": list(extra), "what": msg,
+                         "replay": {"module": __name__, "fn": "replay", "oracle": "c14_cli"}})
+    return {"evaluations": ev, "distinct": ev, "violations": viol,
+            "bound": "5 CLI option sets run in-process (fresh interpreter each), each followed by one library generation compared with the same generation before the run",
+            "function": "Cli.parse_args / Cli.run against the module-level default registry"}
